@@ -1213,6 +1213,12 @@ impl Sim {
                 let kk = if k == 15 { [K_ONCE, K_PER][self.rng.below(2)] } else { self.rng.below(NK) };
                 let Some(v) = self.fresh_val(e, kk) else { return };
                 let had = has_kind(&self.server.world().entity(e), kk);
+                if kk == K_ATT && had {
+                    // O8: re-targeting a replicated relationship travels in an unreliable mutate message; if the
+                    // old target disappears first, the client's own relationship hook removes the component
+                    // until the mutation arrives. The workload only attaches and detaches (both reliable).
+                    return;
+                }
                 if kk == K_ONCE && !had {
                     self.on_added.insert(e);
                 }
@@ -1304,7 +1310,10 @@ impl Sim {
                 }
             }
             11 => {
-                let kk = if self.rng.below(3) == 0 { K_ATT } else { K_LINK };
+                let mut kk = if self.rng.below(3) == 0 { K_ATT } else { K_LINK };
+                if kk == K_ATT && has_kind(&self.server.world().entity(e), K_ATT) {
+                    kk = K_LINK;
+                }
                 if let Some(v) = self.fresh_val(e, kk) {
                     let s = v.short();
                     let mut em = self.server.world_mut().entity_mut(e);
